@@ -428,6 +428,8 @@ def run(ctx):
     try:
         h = vlib.build_harness("c09", extra=["-DOMPI_SKIP_MPICXX"])
         ops = vlib.corpus_ops("C09") + component_ops(ctx, scratch)
+        for op in ops:
+            os.makedirs(os.path.dirname(op.split()[3]), exist_ok=True)
         if ok:
             n, impl, model, orc = ctx.correspond("components", h, vlib.driver("drv_c09"), ops,
                                                  cmp=lambda a, b, op: a == vlib.strip_branch(b),
